@@ -22,10 +22,12 @@ def hidc():
 def compile_src(src, w=2, s=500, unchecked=False, lint=False, want_env=False):
     SourceCode, parse, Environment, CodeGen, _ = hidc()
     env = Environment.empty(unreachable_error=lint)
-    prog = parse(SourceCode.from_string(src)).evaluate(env)
+    parsed = parse(SourceCode.from_string(src))
+    prog = parsed.evaluate(env)
     cg = CodeGen(env, w, s, unchecked)
     lines = list(cg.gen_lines())
     if want_env:
+        env.options['_parsed'] = parsed      # the tree before typechecking (for syntactic facts)
         return lines, prog, env
     return lines
 
